@@ -27,6 +27,7 @@ class SetOrder:
         self.set_attrs = set(set_attrs)
         self.cfg = CFG(fn_node)
         self.leaks = []   # (node, expr, kind, text)
+        self.call_arg_kinds = {}   # id(call) -> (call, [kind of each positional arg])
         self.instances = 0
         self._seen = set()
         init = frozenset(('set', p) for p in set_params)
@@ -95,6 +96,10 @@ class SetOrder:
                 p = parents.get(id(p))
             return False
         for n in [e, *walk_no_nested(e)]:
+            if isinstance(n, ast.Call) and n.args:
+                ks = [self.kind(a, st) for a in n.args]
+                if any(ks):
+                    self.call_arg_kinds[id(n)] = (n, ks)
             if isinstance(n, ast.Subscript) and isinstance(n.ctx, ast.Load) and self.kind(n.value, st) == 'useq':
                 self.instances += 1
                 if not canon_above(n):
